@@ -98,6 +98,11 @@ def worker(task):
                 res['nobl'] = 1
                 return res
             obls = mod.obligations(rec)
+            second = getattr(rec, 'second', None)
+            if second is not None:
+                # hidden state was modified by the call: same obligations for the second call
+                obls = list(obls) + [(n + '@second_call', f) for n, f in mod.obligations(second)]
+                res['wit'].append('second_call')
             for name, f in obls:
                 res['nobl'] += 1
                 ok, m = sx.valid(f)
@@ -106,7 +111,7 @@ def worker(task):
                         m = _prefer_model(ctx, f, mod.prefer(rec), m)
                     nfail[0] += 1
                     res['fails'].append((name, sx.model_dict(m), None))
-            res['wit'] = list(mod.witnesses(rec))
+            res['wit'] = res['wit'] + list(mod.witnesses(rec))
             if len(out['samples']) < 2:
                 m = ctx.get_model()
                 out['samples'].append(dict(
